@@ -315,6 +315,9 @@ class Composition(Loggable):
                 )
             return comp
 
+        # nothing to update upstream of this pull-based component:
+        # it is no longer part of the dependency chain
+        del chain[comp]
         return None
 
     def _collect_adapters(self):
